@@ -220,7 +220,7 @@ def execute(sc):
                   f"no-result/{out.error_class}")]
     else:
         viol, met = compare(sc, m, out.result)
-        if sc['knobs'].get('rerun') and not viol:
+        if sc['knobs'].get('rerun') in (True, 'same', 'prefix') and not viol:
             # second run with the SAME measurement and sensor-model objects: it must equal
             # the estimator just the same
             FW.reset_spies(m)
